@@ -88,7 +88,7 @@ CONTRACTS = [
                       ("words-drawn-for-exactly-the-recorded-length", "call_arg('choose_words', 0, 1) == self._length"),
                       ("nothing-else", "len(bcall_names()) == 1")]),
     Contract("wormhole/_wordlist.py:PGPWordList.get_completions", props=[PROP],
-             params={"prefix": "str", "num_words": "int"}, self_fields={},
+             params={"prefix": "str", "num_words": "int"}, self_fields={}, returns="set[str]",
              ensures=[("each-extends-and-is-allocatable",
                        "forall(lambda c: implies(c in result, completion_ok(c, prefix, num_words)), 'str')")],
              loops={0: {"header": "for word in words", "retype": {"completions": "set[str]"},
